@@ -312,9 +312,9 @@ def main():
             for x in fs:
                 hit = None
                 for f in findings:
-                    # the key is matched against the input as given and against its normalised form (separator variants
-                    # of a listed input are the same finding)
-                    if x.get("text") is not None and (re.search(f["regex"], x["text"]) or re.search(f["regex"], _normalised(x["text"]))):
+                    # the key is matched against the input as given, against its normalised form and against that in lower case
+                    # (separator and letter-case variants of a listed input are the same finding: C11's equivalences)
+                    if x.get("text") is not None and (re.search(f["regex"], x["text"]) or re.search(f["regex"], _normalised(x["text"])) or re.search(f["regex"], _normalised(x["text"]).lower())):
                         if f.get("depth0"):
                             o2 = dict(x.get("opts") or {}); o2["max_stack_depth"] = 0
                             r2 = eval_case((x["text"], tuple(x["ts"]) if x.get("ts") else None, {k: v for k, v in o2.items() if k in ("latent_time", "max_stack_depth", "relative_match_len")}))
